@@ -33,11 +33,32 @@ class Undecided(Exception):
     pass
 
 
+class MemBudget:
+    """admission control: the sum of the declared peak memory of the running solver processes stays under the budget
+    (VERIF_MEM_BUDGET_GB, default 75% of MemAvailable), so that a parallel run is never decided by the OOM killer"""
+    def __init__(self):
+        try: avail = int([l for l in open('/proc/meminfo') if l.startswith('MemAvailable')][0].split()[1]) / 1048576.0
+        except Exception: avail = 16.0
+        self.total = float(os.environ.get('VERIF_MEM_BUDGET_GB', '0')) or max(4.0, avail * 0.75)
+        self.used = 0.0; self.cv = threading.Condition()
+    def take(self, gb):
+        gb = min(float(gb), self.total); mb = self
+        class _Ctx:
+            def __enter__(s):
+                with mb.cv:
+                    while mb.used + gb > mb.total + 1e-9: mb.cv.wait()
+                    mb.used += gb
+            def __exit__(s, *a):
+                with mb.cv: mb.used -= gb; mb.cv.notify_all()
+        return _Ctx()
+MEM_BUDGET = MemBudget()
+
+
 class Job:
     def __init__(self, name, shim, contract, harness, enforce, replace=(), defines=(), shim_defines=(),
                  unwind=None, unwindset=(), loop_contracts=False, backend='sat', timeout=300, label='complete',
                  functions=(), tier='quick', cbmc_flags=(), clause=None, what='', known=(), no_canary=False,
-                 extra_sources=(), object_bits=None, ignore=None, ignore_why='', resolve=None, replace_calls=(), witness_defines=(), include_dirs=(), resolve_types=None, mode='dfcc', no_replay=False):
+                 extra_sources=(), object_bits=None, ignore=None, ignore_why='', resolve=None, replace_calls=(), witness_defines=(), include_dirs=(), resolve_types=None, mode='dfcc', no_replay=False, mem_gb=1):
         self.name = name; self.shim = shim; self.contract = contract; self.harness = harness
         self.enforce = list(enforce) if isinstance(enforce, (list, tuple)) else [enforce]
         self.replace = list(replace); self.defines = list(defines); self.shim_defines = list(shim_defines)
@@ -48,6 +69,7 @@ class Job:
         self.extra_sources = list(extra_sources); self.object_bits = object_bits
         self.ignore = ignore; self.ignore_why = ignore_why; self.unreachable = 0; self.ignored = []
         self.resolve = dict(resolve or {}); self.replace_calls = list(replace_calls); self.witness_defines = list(witness_defines); self.include_dirs = list(include_dirs); self.resolve_types = dict(resolve_types or {}); self.mode = mode; self.no_replay = no_replay
+        self.mem_gb = mem_gb     # expected peak memory of the solver run: jobs are admitted against a machine-wide budget
         # result fields
         self.status = None; self.obligations = 0; self.discharged = 0; self.failed = []; self.solver_s = 0.0
         self.wall_s = 0.0; self.detail = ''; self.canary_ok = None; self.sample = None
@@ -304,9 +326,10 @@ class Runner:
             outp = os.path.join(d, 'result.json')
             cmd = self.cbmc_cmd(job, gb)
             job._cmd = ' '.join(cmd)
-            ts = time.time()
-            rc, o, e = sh(cmd, timeout=job.timeout, stdout_path=outp)
-            job.solver_s = time.time() - ts
+            with MEM_BUDGET.take(job.mem_gb):
+                ts = time.time()
+                rc, o, e = sh(cmd, timeout=job.timeout, stdout_path=outp)
+                job.solver_s = time.time() - ts
             if rc == 124: raise Undecided('job %s: cbmc timeout after %ss (back end %s)' % (job.name, job.timeout, job.backend))
             results, err, msgs = parse_cbmc_json(outp)
             if results is None:
